@@ -431,6 +431,19 @@ fn phase1(
                 rep.violation("C05", "pawns_grew", json!({"fen": fen, "move": [f, t, p], "after": pn.describe()}));
             }
         }
+        // a successor that is NOT the one the rules prescribe is reported above (C02); the board the library produced is what
+        // its user plays on, so it is also examined against the record of the true successor (moves, status, derived state)
+        if !(pn == ex && ep_ok) && pn.sq == ex.sq && pn.stm == ex.stm {
+            for e in allowed.iter() {
+                let mut t = ex;
+                t.ep = *e as i8;
+                t.cr = sp.cr & !lost;
+                let e2 = alts.entry(t.key()).or_insert_with(Vec::new);
+                if e2.len() < 4 && !e2.contains(&n1) {
+                    e2.push(n1);
+                }
+            }
+        }
         // transpositions: later arrivals at a state must be indistinguishable from the first
         if pn == ex && ep_ok {
             let k2 = pn.key();
